@@ -353,7 +353,8 @@ theorem costOK : ∀ (A : Op R), A.inScope = true → A.wf = true → CostOK A
       simp only [Op.allocs, List.mem_cons, List.not_mem_nil, or_false] at hs
       simp only [Op.vol, Op.leafStorage]
       have h1 := Nat.mul_le_mul_right b (Nat.le_max_left r c)
-      subst hs; omega
+      have h2 := Nat.mul_le_mul_right b (Nat.le_max_right r c)
+      rcases hs with rfl | rfl <;> omega
   | scalar dt s n, _, _ => by
     refine ⟨by simp [Op.rows, Op.vol], by simp [Op.cols, Op.vol], ?_⟩
     intro b s hs
